@@ -92,3 +92,65 @@ theorem fills_in_id_order (e : Uist σ α) (quotes : σ → Option (Quote α)) (
   exact hp.imp (fun {a b} ⟨i, j, hi, hj, hlt⟩ => by simp [hi, hj, hlt])
 
 end PU
+
+namespace PU
+variable {σ α : Type} [DecidableEq σ] [LinearOrder α] [Mul α]
+
+/-- the batch as admitted: same orders, in the same sequence, stamped with consecutive ids -/
+def stamp (n : Nat) : List (Order σ α) → List (Order σ α)
+  | [] => []
+  | o :: os => { o with id := some n } :: stamp (n + 1) os
+
+theorem admit_full (adm : List (Order σ α)) : ∀ (b : Book σ α) (acc : List (Order σ α)),
+    let r := adm.foldl (fun (acc : Book σ α × List (Order σ α)) o =>
+      let r := acc.1.insert o; (r.1, acc.2 ++ [r.2])) (b, acc)
+    r.1.inner = b.inner ++ stamp b.last adm ∧ r.2 = acc ++ stamp b.last adm := by
+  induction adm with
+  | nil => intro b acc; simp [stamp]
+  | cons o os ih =>
+    intro b acc
+    simp only [List.foldl_cons]
+    obtain ⟨h1, h2⟩ := ih (b.insert o).1 (acc ++ [(b.insert o).2])
+    refine ⟨?_, ?_⟩
+    · rw [h1]; simp [Book.insert, stamp]
+    · rw [h2]; simp [Book.insert, stamp]
+
+/-- one tick, whole orders: the post-book is the non-filling resting orders, unchanged and in their
+    old order, followed by the stamped batch, which is also the admitted list returned -/
+theorem tick_full (e : Uist σ α) (quotes : σ → Option (Quote α)) (adm : List (Order σ α))
+    (hinv : BookInv e.book) :
+    let r := e.tick quotes adm
+    r.1.book.inner = e.book.inner.filter (fun o => !fillsOn quotes o) ++ stamp e.book.last adm
+    ∧ r.2.2 = stamp e.book.last adm
+    ∧ r.1.log = e.log ++ e.book.inner.filterMap (tradeOn quotes)
+    ∧ r.1.buffer = [] := by
+  obtain ⟨e1, e2, e3⟩ := execute_spec e.book quotes hinv
+  obtain ⟨a1, a2⟩ := admit_full adm (e.book.execute quotes).1 []
+  refine ⟨?_, ?_, ?_, rfl⟩
+  · have : (e.tick quotes adm).1.book.inner
+        = (e.book.execute quotes).1.inner ++ stamp (e.book.execute quotes).1.last adm := a1
+    rw [this, e1, e3]
+  · have : (e.tick quotes adm).2.2 = [] ++ stamp (e.book.execute quotes).1.last adm := a2
+    rw [this, e3]; simp
+  · have : (e.tick quotes adm).1.log = e.log ++ (e.book.execute quotes).2 := rfl
+    rw [this, e2]
+
+theorem stamp_length (n : Nat) (l : List (Order σ α)) : (stamp n l).length = l.length := by
+  induction l generalizing n with
+  | nil => rfl
+  | cons o os ih => simp [stamp, ih]
+
+theorem stamp_getElem (n : Nat) (l : List (Order σ α)) (i : Nat) (h : i < l.length) :
+    (stamp n l)[i]'(by rw [stamp_length]; exact h) = { l[i] with id := some (n + i) } := by
+  induction l generalizing n i with
+  | nil => simp at h
+  | cons o os ih =>
+    cases i with
+    | zero => simp [stamp]
+    | succ i =>
+      simp only [stamp, List.getElem_cons_succ]
+      rw [ih (n + 1) i (by simpa using h)]
+      have : n + 1 + i = n + (i + 1) := by omega
+      rw [this]
+
+end PU
